@@ -418,7 +418,8 @@ def drive(prop_id, tier, seed_value, only=None, jobs=None, scale=1.0,
     from . import registry
     prop = registry.load(prop_id)
     jobs = jobs or int(os.environ.get("VERIF_JOBS", "16"))
-    findings = [f for f in load_known_findings() if f["property"] == prop_id]
+    findings = [f for f in load_known_findings()
+                if f["property"] == prop_id or prop_id in f.get("also_properties", [])]
     known = [f for f in findings if f["status"] == "known"]
     # development aid only: treat extra classifier keys as known ("sub:key|sub:key")
     for item in filter(None, os.environ.get("VERIF_EXTRA_KNOWN", "").split("|")):
@@ -503,7 +504,7 @@ def drive(prop_id, tier, seed_value, only=None, jobs=None, scale=1.0,
         if only and (f.get("probe_sub") or f.get("subcheck")) not in only:
             continue
         reproduced = None
-        if f.get("probe") is not None:
+        if f.get("probe") is not None and f["property"] == prop_id:
             info = run_replay(prop_id, f.get("probe_sub") or f["subcheck"], f["probe"])
             reproduced = info is not None and info.get("key") == f["key"]
         hits = known_hits.get(f["key"], 0)
